@@ -6,12 +6,15 @@
    footprint theorems of C04) and a leaf conflict is resolved exactly (C07).
    The outcome statement (second commit conflicts, or the stored tree is sound
    with serial or disjointly merged contents) is proved for containers that are
-   one leaf (C08_leaf_outcome); for multi-node trees it is checked by the
-   harness on pairs of transactions in both commit orders, not proved (see
-   DESIGN.md). *)
+   one leaf (C08_leaf_outcome) and for trees when both transactions are
+   leaf-local (C08_tree_outcome); transactions that split, empty or unlink
+   leaves are checked by the harness on pairs of transactions in both commit
+   orders, not proved (see DESIGN.md). *)
 From Coq Require Import ZArith List Bool.
 From BT Require Import Model.RTree Model.TreeSpec Model.TreeRun Model.Persist Model.PersistSpec Proofs.SyncProofs.
 From BT Require Import Model.Merge Model.MergeSpec Proofs.OutcomeProofs.
+From BT Require Import Model.Concurrent.
+From BT Require Proofs.ConcurrentProofs.
 Import ListNotations.
 Open Scope Z_scope.
 
@@ -71,6 +74,52 @@ Theorem C08_leaf_outcome_serial :
   (fst c = fst o -> forall k, lookup V r k = lookup V (fst n) k).
 Proof. exact OutcomeProofs.leaf_outcome_serial. Qed.
 Print Assumptions C08_leaf_outcome_serial.
+
+(* The outcome clause for a TREE of several leaves and two LEAF-LOCAL
+   transactions (Model/Concurrent.v: each replaces the items of some leaves; no
+   split, no leaf emptied, every key stays in its leaf's interval, so interior
+   nodes are only read and never change).  commit2 is the commit of the second
+   transaction after the first, object by object as ZODB does it.  Either it is a
+   conflict error, or the stored tree is sound (same leaves and intervals, every
+   leaf sorted, non-empty, inside its interval) and its contents are the original
+   with both change sets applied, the two change sets being disjoint.  *)
+Theorem C08_tree_outcome : forall base t1 t2,
+  base_ok base -> txn_ok base t1 -> txn_ok base t2 ->
+  match commit2 base t1 t2 with
+  | None => True
+  | Some final =>
+      base_ok final /\ map skel final = map skel base /\
+      merged Z (contents_of base) (contents_of (apply base t1))
+               (contents_of (apply base t2)) (contents_of final) /\
+      (forall k, ~ (touched Z (contents_of base) (contents_of (apply base t1)) k /\
+                    touched Z (contents_of base) (contents_of (apply base t2)) k))
+  end.
+Proof. exact ConcurrentProofs.tree_outcome. Qed.
+Print Assumptions C08_tree_outcome.
+
+(* ... and it is a conflict EXACTLY when some leaf both changed has overlapping
+   change sets or lost its smallest key (so the theorem above is not satisfied
+   by a protocol that always refuses) *)
+Theorem C08_tree_commit_exact : forall base t1 t2,
+  base_ok base -> txn_ok base t1 -> txn_ok base t2 ->
+  ((exists final, commit2 base t1 t2 = Some final) <->
+   forall l c n, In l base -> change t1 (lid l) = Some c -> change t2 (lid l) = Some n ->
+                 ConcurrentProofs.resolvable (litems l) c n).
+Proof. exact ConcurrentProofs.tree_commit_exact. Qed.
+Print Assumptions C08_tree_commit_exact.
+
+(* transactions on different leaves always commit: the serial result *)
+Theorem C08_different_leaves : forall base t1 t2,
+  (forall l, In l base -> change t1 (lid l) = None \/ change t2 (lid l) = None) ->
+  commit2 base t1 t2 = Some (apply (apply base t1) t2).
+Proof. exact ConcurrentProofs.different_leaves_commit. Qed.
+Print Assumptions C08_different_leaves.
+
+(* the leaf sequence of every tree the API produces is such a base *)
+Theorem C08_api_trees_are_bases : forall ml mi (t : tree Z),
+  Inv Z ml mi t -> NoDup (map fst (leaves Z t)) -> base_ok (tree_leaves None None t).
+Proof. exact ConcurrentProofs.inv_base_ok. Qed.
+Print Assumptions C08_api_trees_are_bases.
 
 Example C08_example :
   let t := Node 0%nat [(0, Node 1%nat [(0, Leaf 2%nat [(1, 0)]); (3, Leaf 3%nat [(3, 0)])]); (5, Node 4%nat [(5, Leaf 5%nat [(5, 0)])])] in
